@@ -11,6 +11,7 @@ import (
 )
 
 type modItem struct {
+	cond    string // "" or a guard under which the item is in the frame
 	kind    string // cell | sub | star | elems | arr
 	ref     string
 	heapK   string // for cell
@@ -54,6 +55,16 @@ func (e *Env) evalModItems(exprs []ast.Expr) []modItem {
 		if call, ok := x.(*ast.CallExpr); ok {
 			if id, ok := call.Fun.(*ast.Ident); ok {
 				switch id.Name {
+				case "when":
+					// when(cond, item)
+					c := e.eval(call.Args[0])
+					sub := e.evalModItems(call.Args[1:])
+					for _, it := range sub {
+						it.cond = sAnd(it.cond, c.S)
+						it.src = src
+						out = append(out, it)
+					}
+					continue
 				case "star":
 					v := e.eval(call.Args[0])
 					ref := v.S
@@ -105,22 +116,29 @@ func (e *Env) evalModItems(exprs []ast.Expr) []modItem {
 }
 
 // inFrameCell: is cell r (of heap k) covered by the items?
+func guard(it modItem, s string) string {
+	if it.cond == "" || it.cond == "true" {
+		return s
+	}
+	return sAnd(it.cond, s)
+}
+
 func inFrameCell(items []modItem, k, r string) string {
 	var ds []string
 	for _, it := range items {
 		switch it.kind {
 		case "cell":
 			if it.heapK == k {
-				ds = append(ds, sEq(r, it.ref))
+				ds = append(ds, guard(it, sEq(r, it.ref)))
 			}
 		case "sub":
-			ds = append(ds, sx("withineq", r, it.ref))
+			ds = append(ds, guard(it, sx("withineq", r, it.ref)))
 		case "star":
-			ds = append(ds, sx("within", r, it.ref))
+			ds = append(ds, guard(it, sx("within", r, it.ref)))
 		case "elems":
 			if !it.elemInt {
 				for _, rr := range []string{r, sx("parent", r), sx("parent", sx("parent", r))} {
-					ds = append(ds, sAnd(sx("(_ is elt)", rr), sEq(sx("ebase", rr), it.sl.Bas), sx("<=", it.sl.Off, sx("eidx", rr)), sx("<", sx("eidx", rr), sAdd(it.sl.Off, it.sl.Len))))
+					ds = append(ds, guard(it, sAnd(sx("(_ is elt)", rr), sEq(sx("ebase", rr), it.sl.Bas), sx("<=", it.sl.Off, sx("eidx", rr)), sx("<", sx("eidx", rr), sAdd(it.sl.Off, it.sl.Len)))))
 				}
 			}
 		}
@@ -134,14 +152,14 @@ func inFrameArr(items []modItem, b, i string) string {
 	for _, it := range items {
 		switch it.kind {
 		case "arr":
-			ds = append(ds, sEq(b, it.ref))
+			ds = append(ds, guard(it, sEq(b, it.ref)))
 		case "sub":
-			ds = append(ds, sx("withineq", b, it.ref))
+			ds = append(ds, guard(it, sx("withineq", b, it.ref)))
 		case "star":
-			ds = append(ds, sx("within", b, it.ref))
+			ds = append(ds, guard(it, sx("within", b, it.ref)))
 		case "elems":
 			if it.elemInt {
-				ds = append(ds, sAnd(sEq(b, it.sl.Bas), sx("<=", it.sl.Off, i), sx("<", i, sAdd(it.sl.Off, it.sl.Len))))
+				ds = append(ds, guard(it, sAnd(sEq(b, it.sl.Bas), sx("<=", it.sl.Off, i), sx("<", i, sAdd(it.sl.Off, it.sl.Len)))))
 			}
 		}
 	}
@@ -189,6 +207,9 @@ func (r *FnRun) havocItems(st *State, items []modItem) {
 					case "S":
 						fv = r.fresh("hv", "BSeq")
 					}
+					if it.cond != "" && it.cond != "true" {
+						fv = sIte(it.cond, fv, sx("select", st.heap[k], it.ref))
+					}
 					r.setHeap(st, k, sx("store", st.heap[k], it.ref, fv))
 				}
 			case "sub", "star":
@@ -211,13 +232,21 @@ func (r *FnRun) havocItems(st *State, items []modItem) {
 	for _, it := range items {
 		switch it.kind {
 		case "arr":
-			r.setHeap(st, "A", sx("store", st.heap["A"], it.ref, r.fresh("hva", "(Array Int Int)")))
+			na := r.fresh("hva", "(Array Int Int)")
+			if it.cond != "" && it.cond != "true" {
+				na = sIte(it.cond, na, sx("select", st.heap["A"], it.ref))
+			}
+			r.setHeap(st, "A", sx("store", st.heap["A"], it.ref, na))
 		case "elems":
 			if it.elemInt {
 				fs := r.fresh("hvs", "BSeq")
 				st.assume(sEq(sx("blen", fs), it.sl.Len))
 				a := st.heap["A"]
-				r.setHeap(st, "A", sx("store", a, it.sl.Bas, sx("splice", sx("select", a, it.sl.Bas), it.sl.Off, it.sl.Len, fs)))
+				na := sx("splice", sx("select", a, it.sl.Bas), it.sl.Off, it.sl.Len, fs)
+				if it.cond != "" && it.cond != "true" {
+					na = sIte(it.cond, na, sx("select", a, it.sl.Bas))
+				}
+				r.setHeap(st, "A", sx("store", a, it.sl.Bas, na))
 			}
 		case "sub", "star":
 			wide = append(wide, it)
@@ -322,6 +351,9 @@ func (r *FnRun) checkFrameCall(st *State, site ssa.Instruction, items []modItem,
 		short := callee
 		if i := strings.LastIndex(short, "."); i >= 0 {
 			short = short[i+1:]
+		}
+		if it.cond != "" && it.cond != "true" {
+			goal = sImp(it.cond, goal)
 		}
 		r.check(st, "frame", sanitize(short+"."+it.src), site, goal, "frame of callee "+callee+" ("+it.src+") is inside the caller's modifies frame")
 	}
@@ -747,8 +779,11 @@ func (r *FnRun) applyContract(st *State, site ssa.Instruction, c *Contract, name
 		ref := results[0].S
 		if results[0].K == KSlice {
 			ref = results[0].Bas
+		} else if results[0].K == KIface {
+			ref = results[0].Pay
 		}
 		st.assume(sx(">=", sx("rootid", ref), old.alloc))
+		st.assume(sOr(sEq(ref, "null"), sx("(_ is obj)", ref))) // a freshly allocated result is a whole object
 	}
 	env.old = old
 	for _, en := range c.Ensures {
@@ -876,6 +911,7 @@ func (r *FnRun) builtinAppend(st *State, site ssa.Instruction, args []Val, resT 
 		p := r.allocObj(st, "append")
 		c := r.fresh("appcap", "Int")
 		st.assume(sx(">=", c, newLen))
+		st.assume(sEq(sx("alen", p), c))
 		return Val{K: KSlice, T: resT, Bas: p, Off: "0", Len: newLen, Cap: c}
 	}
 	oldSeq := r.seqOfSlice(st, s)
@@ -892,6 +928,7 @@ func (r *FnRun) builtinAppend(st *State, site ssa.Instruction, args []Val, resT 
 	st.assume(sEq(nb, sIte(inPlace, s.Bas, p)))
 	st.assume(sEq(no, sIte(inPlace, s.Off, "0")))
 	st.assume(sIte(inPlace, sEq(nc, s.Cap), sx(">=", nc, newLen)))
+	st.assume(sEq(sx("alen", p), sIte(inPlace, "0", nc)))
 	a := st.heap["A"]
 	// contents: in place => splice the added bytes after the old ones (same
 	// array); fresh => new array whose first newLen bytes are old ++ added
@@ -1371,6 +1408,10 @@ func (r *FnRun) atReturn(st *State, res []Val, site ssa.Instruction) {
 		o := r.oblig(st, "post", lbl, nil, g.S, "postcondition: "+en.Src, props)
 		o.Clause = en.Src
 		o.Pos = r.W.Prog.Fset.Position(site.Pos())
+		// later clauses may use earlier ones (proof hints are ordinary clauses)
+		if !strings.Contains(g.S, "(forall ") {
+			st.assume(g.S)
+		}
 	}
 }
 
